@@ -1584,6 +1584,90 @@ def _builder_insert(g: G) -> Act | None:
     return Act("Builder.insert", run, [*objs, *ops], f"Builder({d}).{'insert_op' if alias else 'insert'}({od}, {d2}){lf}", listener_fault_at=g.fault_at)
 
 
+def _seg_op_cls():
+    """A harness IRDL op with *named* operand / successor segments: a single one before a
+    variadic, the variadic, a single one after it (built lazily, once)."""
+    global _SEG_OP
+    if _SEG_OP is None:
+        from xdsl.irdl import (
+            IRDLOperation,
+            irdl_op_definition,
+            operand_def,
+            successor_def,
+            var_operand_def,
+            var_region_def,
+            var_result_def,
+            var_successor_def,
+        )
+
+        @irdl_op_definition
+        class SimSegOp(IRDLOperation):
+            name = "simverif.seg"
+            first = operand_def()
+            mid = var_operand_def()
+            last = operand_def()
+            res = var_result_def()
+            s_first = successor_def()
+            s_rest = var_successor_def()
+            s_last = successor_def()
+            regs = var_region_def()
+
+        _SEG_OP = SimSegOp
+    return _SEG_OP
+
+
+_SEG_OP: Any = None
+
+
+@gen("SimSegOp.create", "create", 2)
+def _create_seg_op(g: G) -> Act | None:
+    if len(g.u.ops) >= g.max_ops:
+        return None
+    cls = _seg_op_cls()
+    operands = [g.value() for _ in range(2 + g.s.choice(3))]
+    succs = [g.block() for _ in range(2 + g.s.choice(2))] if g.s.flag(1, 2) else []
+    if any(v is None for v in operands) or any(b is None for b in succs):
+        return None
+    nres = g.s.weighted((2, 3, 1))
+    return Act(
+        "SimSegOp.create",
+        lambda: cls.create(operands=operands, result_types=[g.typ() for _ in range(nres)], successors=succs),
+        [*operands, *succs],
+        f"SimSegOp.create(operands={g.ns(operands)}, results={nres}, successors={g.ns(succs)})",
+    )
+
+
+@gen("IRDL named operand / successor =", "operands", 3)
+def _named_accessor_set(g: G) -> Act | None:
+    """``op.<name> = value`` for a named operand or successor of an IRDL-defined op (the
+    harness op with single-variadic-single segments, or any real dialect op of a corpus
+    module).  The shipped accessors are read-only and raise; a tree that makes them writable
+    must keep operand, successor and use lists consistent."""
+    from xdsl.irdl import IRDLOperation
+
+    o = g.op(lambda o: isinstance(o, IRDLOperation) and type(o).__name__ == "SimSegOp") if g.s.flag(2, 3) else None
+    if o is None:
+        o = g.op(lambda o: isinstance(o, IRDLOperation))
+    if o is None:
+        return None
+    try:
+        d = type(o).get_irdl_definition()
+        names = [("operand", n) for n, _ in d.operands] + [("successor", n) for n, _ in d.successors]
+    except Exception:  # noqa: BLE001
+        return None
+    if not names:
+        return None
+    kind, name = names[g.s.choice(len(names))]
+    val: Any = g.value() if kind == "operand" else g.block()
+    if val is None:
+        return None
+
+    def run() -> None:
+        setattr(o, name, val)
+
+    return Act("IRDL named operand / successor =", run, [o, val], f"{g.n(o)}.{name} = {g.n(val)}  ({kind} of {o.name})")
+
+
 @gen("kept Builder / InsertPoint", "rewriter", 3)
 def _kept_builder(g: G) -> Act | None:
     """A Builder (or a bare InsertPoint) that the caller created earlier and *kept* while the
